@@ -40,16 +40,23 @@ type CondCase struct {
 	// ended (the process is draining) while its handlers still serve: an answer may then be a refusal,
 	// but a "not changed" or a value is as right as ever
 	ServerCtxEndsAt int `json:"server_ctx_ends_at,omitempty"`
+	// Big > 0: the history starts with a put of that many bytes to "a" (nothing bounds the size of a
+	// value; replies of hundreds of kilobytes must come back whole through the network client)
+	Big int `json:"big,omitempty"`
+	// Exotic is one legal name with unusual content (dbx.ExoticNames) that the history also uses
+	Exotic string `json:"exotic,omitempty"`
 }
 
 var c09Names = []string{"a", "a", "a", "b", "dev/c", "zz-absent"}
 
 func genCondCase(rt *rapid.T) CondCase {
 	c := CondCase{HTTP: rapid.Bool().Draw(rt, "http"), Text: rapid.Bool().Draw(rt, "text")}
-	c.Rules = []model.Rule{{Action: []string{"get"}, Secret: []string{rapid.SampledFrom([]string{"a", "*", "dev/*", "b"}).Draw(rt, "pat")}}}
+	c.Exotic = dbx.Exotic(rt)
+	c.Rules = []model.Rule{{Action: []string{"get"}, Secret: []string{rapid.SampledFrom([]string{"a", "*", "dev/*", "b", c.Exotic}).Draw(rt, "pat")}}}
+	names := append(append([]string{}, c09Names...), c.Exotic, c.Exotic)
 	c.Ops = rapid.SliceOfN(rapid.Custom(func(rt *rapid.T) dbx.Op {
 		kinds := []string{"put", "put", "activate", "activate", "delver", "del", "cond", "cond", "cond", "cond"}
-		o := dbx.GenOp(rt, c09Names, kinds, 1)
+		o := dbx.GenOp(rt, names, kinds, 1)
 		if o.Kind == "cond" {
 			o.Caller = rapid.SampledFrom([]int{0, 1, 1, 2, 2, 3, 3}).Draw(rt, "caller")
 		}
@@ -73,6 +80,9 @@ func genCondCase(rt *rapid.T) CondCase {
 	}
 	if c.HTTP && rapid.IntRange(0, 3).Draw(rt, "serverctx") == 0 {
 		c.ServerCtxEndsAt = rapid.IntRange(1, len(c.Ops)).Draw(rt, "serverctxat")
+	}
+	if rapid.IntRange(0, 23).Draw(rt, "withbig") == 0 {
+		c.Big = rapid.SampledFrom([]int{70_000, 200_000, 300_000}).Draw(rt, "big")
 	}
 	return c
 }
@@ -117,6 +127,10 @@ func runC09(t *testing.T, c CondCase) (*h.Violation, h.Info) {
 	defer os.RemoveAll(top)
 	dir := filepath.Join(top, "state")
 	os.MkdirAll(dir, 0o700)
+	if c.Big > 0 {
+		c.Ops = append([]dbx.Op{{Kind: "put", Name: "a", Val: bytes.Repeat([]byte("0123456789abcde\n"), c.Big/16)}}, c.Ops...)
+		info.Class("a-value-of-tens-to-hundreds-of-kilobytes")
+	}
 	su := dbx.Super()
 	low := dbx.Restricted(1, c.Rules)
 	// two tagged devices (tagged nodes have no user identity): one without any grant, one with caller 1's
@@ -302,7 +316,7 @@ func runC09(t *testing.T, c CondCase) (*h.Violation, h.Info) {
 
 var c09 = &h.Campaign[CondCase]{
 	Prop: "C09", Sub: "cond",
-	Rule:  "rapid: histories (1-30 calls) of put/activate/delete-version/delete by a superuser interleaved with conditional gets carrying V in {0, active, latest, latest+1, existing[i], deleted[i], 2^32-1, absolute} by the superuser, a partially allowed user, a tagged device without any grant and a tagged device with the same partial grant, through db.DB or HTTP handlers + setec.Client; in one case of four the audit device fails during some conditional gets (the answer may become an error, never switch to or from not-changed; the server is restarted afterwards); at every conditional get the same question is also put to a FileClient built from a secrets file rendered from the model's active set (Value or TextValue spelling) plus two hand-maintained entries without a usable version number, for which GetIfChanged(name, 0) must agree with Get(name); non-trivial = a conditional get on an existing, permitted secret after an activation back to an older version, or with V naming a deleted/never-existing version; distinct by scenario",
+	Rule:  "rapid: histories (1-30 calls) of put/activate/delete-version/delete by a superuser interleaved with conditional gets carrying V in {0, active, latest, latest+1, existing[i], deleted[i], 2^32-1, absolute} by the superuser, a partially allowed user, a tagged device without any grant and a tagged device with the same partial grant, through db.DB or HTTP handlers + setec.Client; in one case of four the audit device fails during some conditional gets (the answer may become an error, never switch to or from not-changed; the server is restarted afterwards); at every conditional get the same question is also put to a FileClient built from a secrets file rendered from the model's active set (Value or TextValue spelling) plus two hand-maintained entries without a usable version number, for which GetIfChanged(name, 0) must agree with Get(name); every history also uses one legal name with unusual content (control characters, non-ASCII text, %, path-like or version-like suffixes, words the implementation uses as keys), one case in 24 starts with a value of 70-300 KB; non-trivial = a conditional get on an existing, permitted secret after an activation back to an older version, or with V naming a deleted/never-existing version; distinct by scenario",
 	Quick: 10000, Thorough: 1500000,
 	Gen: genCondCase,
 	Run: runC09,
